@@ -363,6 +363,10 @@ func genCfg(t *rapid.T) schedCfg {
 			cfg.days = append(cfg.days, time.Weekday(d))
 		}
 	}
+	// the Weekdays setting is a list in whatever order the operator wrote it (Mon..Fri,Sun; Fri,Mon)
+	if len(cfg.days) > 1 && rapid.Bool().Draw(t, "weekday-list-order-as-written") {
+		cfg.days = rapid.Permutation(cfg.days).Draw(t, "weekday-list")
+	}
 	return cfg
 }
 
@@ -460,6 +464,10 @@ func TestC18_Grid(t *testing.T) {
 						if mask&(1<<d) != 0 {
 							cfg.days = append(cfg.days, time.Weekday(d))
 						}
+					}
+					if mask%2 == 1 && len(cfg.days) > 1 {
+						// every other list is written week-starts-on-Monday style (Sunday last)
+						cfg.days = append(cfg.days[1:], cfg.days[0])
 					}
 					cfgs = append(cfgs, cfg)
 				}
